@@ -245,6 +245,11 @@ func runC18(r *Run) {
 	checkKeyRead(r, kr, []*ssa.Function{newFn, resetTo})
 	kr.Done()
 
+	// ---- Sum: RFC 2104 outer hash over exactly the inner digest, whatever prefix the caller passes
+	sm := r.Rule("C18.sum", "Sum(in): d = inner.Sum(in); the outer hash is fed d[len(in):] (the inner digest alone, not the caller's prefix) and the result is outer.Sum(d[:len(in)]) (the caller's prefix followed by the MAC)", 3)
+	checkSum(r, sm, T, sumFn)
+	sm.Done()
+
 	// ---- marshaled typestate
 	ms := r.Rule("C18.marshaled", "marshaled = true only after both assertions to the marshalable interface and both MarshalBinary calls succeeded; the marshaled pads are used only under the flag; inner is restored from ipad (and stores ipad), outer from opad", 5)
 	checkMarshaled(r, ms, T, sumFn, resetFn)
@@ -722,5 +727,76 @@ func checkKeyRead(r *Run, kr *RuleCtx, fns []*ssa.Function) {
 				}
 			}
 		})
+	}
+}
+
+// checkSum: the data flow of (*hmac).Sum.
+func checkSum(r *Run, rc *RuleCtx, T *types.Named, sumFn *ssa.Function) {
+	if sumFn == nil || len(sumFn.Params) != 2 {
+		rc.Fail("(*hmac).Sum", "not found")
+		return
+	}
+	innerF, outerF := FieldVar(T, "inner"), FieldVar(T, "outer")
+	in := sumFn.Params[1]
+	isLenIn := func(v ssa.Value) bool {
+		c, ok := stripConvs(v).(*ssa.Call)
+		return ok && isBuiltinCall(c, "len") && c.Call.Args[0] == ssa.Value(in)
+	}
+	var innerSum *ssa.Call
+	var outerWrites []*ssa.Call
+	eachInstr(sumFn, func(b *ssa.BasicBlock, i int, x ssa.Instruction) {
+		c, ok := x.(*ssa.Call)
+		if !ok || !c.Call.IsInvoke() {
+			return
+		}
+		_, f := loadedField(c.Call.Value)
+		switch {
+		case c.Call.Method.Name() == "Sum" && f == innerF:
+			innerSum = c
+		case c.Call.Method.Name() == "Write" && f == outerF:
+			outerWrites = append(outerWrites, c)
+		}
+	})
+	rc.Instance("Sum|inner digest", true, nil)
+	if innerSum == nil || innerSum.Call.Args[0] != ssa.Value(in) {
+		rc.Violation(sumFn, sumFn.Pos(), "inner.Sum(in)", "the inner digest is not appended to the caller's slice")
+		return
+	}
+	// exactly one outer.Write of the digest part
+	nDigest := 0
+	for _, w := range outerWrites {
+		arg := w.Call.Args[0]
+		if _, f := loadedField(arg); f != nil {
+			continue // outer.Write(h.opad): the key pad
+		}
+		nDigest++
+		sl, ok := arg.(*ssa.Slice)
+		rc.Instance("Sum|outer input", true, map[string]string{"outer_write": exprDepth(arg, 0)})
+		if !ok || sl.X != ssa.Value(innerSum) || sl.High != nil || sl.Low == nil || !isLenIn(sl.Low) {
+			rc.Violation(sumFn, instrPos(w), "outer.Write("+exprDepth(arg, 0)+")", "the outer hash must be fed exactly the inner digest, inner.Sum(in)[len(in):]; feeding the caller's prefix as well makes the MAC depend on the destination slice")
+		}
+	}
+	if nDigest != 1 {
+		rc.Violation(sumFn, sumFn.Pos(), fmt.Sprintf("%d writes of the inner digest into the outer hash", nDigest), "exactly one is required (RFC 2104: H(K xor opad, H(K xor ipad, text)))")
+	}
+	for _, ret := range returnsOf(sumFn) {
+		v := deref(ret.Results[0])
+		c, ok := v.(*ssa.Call)
+		rc.Instance("Sum|result", true, map[string]string{"result": exprDepth(v, 0)})
+		okRes := false
+		if ok && c.Call.IsInvoke() && c.Call.Method.Name() == "Sum" {
+			if _, f := loadedField(c.Call.Value); f == outerF {
+				arg := c.Call.Args[0]
+				if sl, isSl := arg.(*ssa.Slice); isSl && sl.X == ssa.Value(innerSum) && sl.Low == nil && sl.High != nil && isLenIn(sl.High) {
+					okRes = true
+				}
+				if arg == ssa.Value(in) {
+					okRes = true // appending to the caller's original slice is the same prefix
+				}
+			}
+		}
+		if !okRes {
+			rc.Violation(sumFn, instrPos(ret), "result "+exprDepth(v, 0), "Sum must return outer.Sum(<caller's prefix>): the prefix followed by the MAC")
+		}
 	}
 }
